@@ -8,7 +8,7 @@ THEOREMS = ["AcqVerif.C02.%s" % t for t in (
     "mapped_reader_frame", "mapped_region_stable")] + ["AcqVerif.Channel.Inv.run"]
 
 def run(ctx):
-    ctx.prove(MODULE, THEOREMS, extra_targets=DRIVERS)
+    chan.prove_with_lock_discipline(ctx, MODULE, THEOREMS, DRIVERS)
     ctx.assumptions += chan.ASSUMPTIONS
     chan.explore(ctx, chan.C02_ORACLES)
     # the same claim where a zero-copy consumer really sits: the monitoring client of the running pipeline holds a region
@@ -18,8 +18,8 @@ def run(ctx):
     ex = rtx.Explorer(ctx)
     if ex.build():
         keep = dict(ctx.cov)
-        rel = lambda p: p["kind"] in ("crash", "diff") or "monitor-region" in p["msg"] or "map-read-failed" in p["msg"]
-        rtx.explore(ctx, ex, ["remap", "remap", "holdmon", "slowmon"], 24 if ctx.tier == "thorough" else 5, 10 if ctx.tier == "thorough" else 5, rel)
+        rel = lambda p: p["kind"] in ("crash", "diff") or "monitor-" in p["msg"] or "map-read-failed" in p["msg"] or "stored-" in p["msg"]
+        rtx.explore(ctx, ex, ["remap", "remap", "holdmon", "slowmon", "avgtwo"], 24 if ctx.tier == "thorough" else 5, 10 if ctx.tier == "thorough" else 5, rel)
         ctx.cov.update(keep)
         ctx.cov["pipeline_runs"] = {"runs": ex.stats["runs"], "per_class": ex.stats["per_class"], "oracle_kinds_hit": ex.stats["oracle_kinds"],
                                     "cosim_runs": ex.stats["cosim_runs"], "cosim_agree": ex.stats["cosim_ok"], "decisions_compared": ex.stats["decisions"]}
